@@ -6,6 +6,8 @@ pub mod kv;
 pub mod memstore;
 pub mod storage;
 pub mod buflog;
+pub mod smcrash;
+pub mod replconv;
 
 use std::path::Path;
 use std::sync::Arc;
@@ -43,4 +45,21 @@ pub async fn open_rocks_sm(dir: &Path) -> Arc<dyn StateMachine> {
     let sm: Arc<dyn StateMachine> = Arc::new(sm);
     sm.start().await.expect("start");
     sm
+}
+
+pub async fn try_open_sm(engine: &str, dir: &Path) -> Result<Arc<dyn StateMachine>, String> {
+    if engine == "file" {
+        let mut sm = FileStateMachine::new(dir.to_path_buf()).await.map_err(|e| format!("{e:?}"))?;
+        sm.set_lease(Arc::new(TtlLease::new(lease_cfg())));
+        let sm: Arc<dyn StateMachine> = Arc::new(sm);
+        sm.start().await.map_err(|e| format!("{e:?}"))?;
+        Ok(sm)
+    } else {
+        std::fs::create_dir_all(dir).ok();
+        let mut sm = RocksDBStateMachine::new(dir).map_err(|e| format!("{e:?}"))?;
+        sm.set_lease(Arc::new(TtlLease::new(lease_cfg())));
+        let sm: Arc<dyn StateMachine> = Arc::new(sm);
+        sm.start().await.map_err(|e| format!("{e:?}"))?;
+        Ok(sm)
+    }
 }
